@@ -16,6 +16,13 @@ Fixpoint ok_from (S : sets) (ops : list op) : bool :=
   | o :: r => step_ok S o && ok_from (spec_step S o) r
   end.
 
+Section Fx.
+Variable fx : fixes.   (* which repairs of C06 findings the code contains; the proofs do not care *)
+Notation step := (Model.step fx).
+Notation run_from := (Model.run_from fx).
+Notation run := (Model.run fx).
+Notation fresh := (Spec.fresh fx).
+
 (** ** UpdateRuleSet *)
 
 Lemma update_sound st S s ds :
@@ -25,8 +32,8 @@ Lemma update_sound st S s ds :
   (spec_accepts S s ds = false -> exists e, step st (Update s ds) = (st, Some e)).
 Proof.
   intros HI HR HS Hg.
-  destruct (upd_del_phase st s ds HI Hg) as (d1 & Ed & R1 & F1).
-  unfold step, gstep. cbv zeta. rewrite Ed, (upd_tba st s ds HI). split.
+  destruct (upd_del_phase fx st s ds HI Hg) as (d1 & Ed & R1 & F1).
+  unfold Model.step, gstep. cbv zeta. rewrite Ed, (upd_tba st s ds HI). split.
   - intros A F. destruct (upd_accept st S s ds HI HR HS Hg d1 R1 F1 A) as (d2 & Ea & R2 & F2). rewrite Ea.
     eexists. split; [reflexivity|]. rewrite (upd_known st s ds Hg). split.
     + split; simpl; [apply (upd_KInv st S s ds HI HR HS Hg A) | exact R2 | exact F2].
@@ -45,7 +52,7 @@ Proof. induction l; simpl; congruence. Qed.
 Lemma add_as_update (st : repo) s ds :
   filter (from_src s) (known st) = [] -> step st (Add s ds) = step st (Update s ds).
 Proof.
-  intro E. unfold step, gstep. cbv zeta. rewrite E. unfold to_be_added, to_be_deleted. simpl.
+  intro E. unfold Model.step, gstep. cbv zeta. rewrite E. unfold to_be_added, to_be_deleted. simpl.
   rewrite !filter_true. reflexivity.
 Qed.
 
@@ -67,8 +74,8 @@ Lemma delete_sound st S s : Inv st -> Rel (known st) S -> SInv S ->
   exists st', step st (Delete s) = (st', None) /\ Inv st' /\ Rel (known st') (del_set S s) /\ SInv (del_set S s).
 Proof.
   intros HI HR HS.
-  destruct (del_rules_spec (known st) (from_src s) (index st) (i_k _ HI) (i_v _ HI) (i_f _ HI)) as (d' & Ed & R' & F').
-  unfold step, gstep. cbv zeta. rewrite Ed. eexists. split; [reflexivity|].
+  destruct (del_rules_spec fx (known st) (from_src s) (index st) (i_k _ HI) (i_v _ HI) (i_f _ HI)) as (d' & Ed & R' & F').
+  unfold Model.step, gstep. cbv zeta. rewrite Ed. eexists. split; [reflexivity|].
   assert (EK : filter (fun r => negb (mem_rule r (filter (from_src s) (known st)))) (known st) =
                filter (fun r => negb (from_src s r)) (known st)).
   { apply filter_ext_in. intros r Hr. f_equal. apply bool_eq_iff. rewrite mem_rule_in, filter_In. tauto. }
@@ -266,11 +273,11 @@ Proof. intros W G fa path m. rewrite (history_equals_fresh ops W G). reflexivity
     operation, no guard needed: the work is done on a clone) *)
 Theorem rejected_is_noop (st : repo) o st' e : step st o = (st', Some e) -> st' = st.
 Proof.
-  unfold step, gstep. destruct o as [s ds|s ds|s]; cbv zeta.
+  unfold Model.step, gstep. destruct o as [s ds|s ds|s]; cbv zeta.
   - destruct (Model.add_rules db m_add1 (index st) (stamp s ds)); intro H; inversion H; reflexivity.
-  - destruct (Model.del_rules db m_del1 (index st) _); [|intro H; inversion H; reflexivity].
+  - destruct (Model.del_rules db (m_del1 fx) (index st) _); [|intro H; inversion H; reflexivity].
     destruct (Model.add_rules db m_add1 d _); intro H; inversion H; reflexivity.
-  - destruct (Model.del_rules db m_del1 (index st) _); intro H; inversion H; reflexivity.
+  - destruct (Model.del_rules db (m_del1 fx) (index st) _); intro H; inversion H; reflexivity.
 Qed.
 
 Lemma ok_from_app ops o : forall S, ok_from S (ops ++ [o]) = true ->
@@ -375,3 +382,5 @@ Proof.
   destruct (ReprV_in _ _ _ _ _ (i_v _ I1) Hg Hy) as [Hy1 Hy2].
   apply (k_src _ (i_k _ I1) x y q); assumption.
 Qed.
+
+End Fx.
